@@ -1,6 +1,7 @@
 import A5.Lemmas.Total3
 import A5.Lemmas.HexLemmas
 import A5.Lemmas.PentagonConvex2
+import A5.Lemmas.FloatApiTotal2
 /-! # C14 — the integer API is total: no panic, no overflow, no non-termination; errors or valid results
 
 Model: `A5/Model/Codec.lean`, `Hier.lean`, `Compact.lean`, `Hex.lean`.  `Outcome.panic k` marks every point
@@ -318,5 +319,42 @@ theorem exact_pentagon_passes_winding (a : Anchor) (hF : IsFlip a.flips) (s : Ra
     WindingCorrectG 0 (placedQ a s m) ∧ 0 < areaG 0 (placedQ a s m) ∧ polyNewG 0 (placedQ a s m) = placedQ a s m := by
   obtain ⟨_, h2, h3, _⟩ := placedQ_facts a hF s hs m hd
   exact ⟨Rat.le_of_lt h2, h2, h3⟩
+
+/-! ## the float-valued API: outcome-level totality for every id and every float -/
+
+/-- `float_api_total`.  For EVERY id (indeed every natural number), every `Float` (NaN and infinities included), every
+ring option and every origin id: `cell_to_lonlat` ends in ok / `badOrigin` (exactly for ids that do not decode) /
+`crsVertex`; `cell_to_boundary` in ok / `badOrigin` / `crsVertex` / the fuel of the longitude-unwrapping loop (float
+dependent: finite longitudes terminate); `a5cell_contains_point` on a decodable non-world id in ok / `crsVertex` /
+`notCCW`; the projection in ok / `crsVertex` / `invalidOrigin` (exactly for origin ids ≥ 12); `get_pentagon` succeeds on
+every decodable non-world id; the saturating cell count fits a `u64`.  No index, overflow, shift or unwrap panic is
+reachable through the id-based float API. -/
+theorem float_api_total :
+    (∀ id : Nat, (∃ p, cellToLonLat id = .ok p) ∨ cellToLonLat id = .err .badOrigin ∨
+        cellToLonLat id = .err .crsVertex) ∧
+    (∀ (id : Nat) (closed : Bool) (segs : Option Nat),
+        (∃ ring, cellToBoundary id closed segs = .ok ring) ∨ cellToBoundary id closed segs = .err .badOrigin ∨
+        cellToBoundary id closed segs = .err .crsVertex ∨ cellToBoundary id closed segs = .panic .fuel) ∧
+    (∀ (id : Nat) (c : Cell) (lon lat : Float), deserialize id = .ok c → getResolution id ≠ -1 →
+        (∃ d, cellContainsPoint c lon lat = .ok d) ∨ cellContainsPoint c lon lat = .err .crsVertex ∨
+        cellContainsPoint c lon lat = .panic .notCCW) ∧
+    (∀ (theta phi : Float) (o : Nat),
+        (∃ v, dodecaForward theta phi o = .ok v) ∨ (dodecaForward theta phi o = .err .crsVertex ∧ o < 12) ∨
+        (dodecaForward theta phi o = .err .invalidOrigin ∧ 12 ≤ o)) ∧
+    (∀ (f : V2) (o : Nat),
+        (∃ v, dodecaInverse f o = .ok v) ∨ (dodecaInverse f o = .err .crsVertex ∧ o < 12) ∨
+        (dodecaInverse f o = .err .invalidOrigin ∧ 12 ≤ o)) ∧
+    (∀ (id : Nat) (c : Cell), deserialize id = .ok c → getResolution id ≠ -1 → ∃ p, getPentagon c = .ok p) ∧
+    (∀ r : Int, getNumCells r < 2 ^ 64) :=
+  _root_.A5.float_api_total
+
+/-- Observation (outside the property's quantifiers, which range over ids, coordinates and resolutions): the two public
+functions that take a hand-built `A5Cell` RECORD are not total on records no id decodes to - `get_pentagon` indexes the
+origin table out of bounds for `origin_id ≥ 12`, and runs the digit loop with depth `-2 as usize` on a negative
+resolution (the world record included). -/
+theorem record_api_observation :
+    (∀ c : Cell, 12 ≤ c.origin → getPentagon c = .panic .indexOOB) ∧
+    (∀ c : Cell, c.origin < 12 → c.res < 0 → getPentagon c = .panic .fuel) :=
+  ⟨_root_.A5.record_api_findings.1, _root_.A5.record_api_findings.2.1⟩
 
 end A5.C14
